@@ -290,6 +290,12 @@ func (ctx *crashCtx) allowed(k int, cut map[int]int, power bool) (lo, hi int) {
 		if durable && hasData {
 			lo = j
 		}
+		// C04: a batch created with the Sync option is durable once Commit has returned, whatever was synced when
+		if op := r.MutOp[j]; op >= 0 && op < len(ctx.kinds) && ctx.kinds[op] == "batch" && r.C.Clients[0][op].Flag &&
+			(op <= returned || op < curOp) {
+			lo = j
+			r.inc("sync_batch_durability_demanded")
+		}
 	}
 	return
 }
